@@ -77,7 +77,20 @@ def conj(test):
   return [test]
 
 
+def rendered_back(ctx):
+  """"A Performance rendered back and re-quantized has the same multiset of notes": the rendering half of that clause is decided
+  by the rules C06 and C09 own for the three performance renderers - rendered times lie on the step grid with the start step
+  entering exactly once (GRID/*, ORIGIN/*), a NOTE_OFF closes one open onset (RENDER/*), and velocity bins and their
+  representatives are inverse (VEL/*)."""
+  from rules import C06, C09
+  for w in ('performance_lib:BasePerformance._to_sequence', 'performance_lib:NotePerformance.to_sequence'):
+    C06.grid(ctx, C06.canon_renderer(ctx.func(w)), {})
+  C06.note_off_ends_one(ctx, 'RENDER/note-off-ends-one')
+  C09.velocity(ctx)
+
+
 def run(ctx):
+  rendered_back(ctx)
   order(ctx)
   roll_gap_index(ctx)
   roll_pitch_range(ctx)
@@ -632,4 +645,4 @@ MUTANTS = [
 
 RENAME_FUNCS = [(PL, 'BasePerformance._from_quantized_sequence'), (ML, 'Melody.from_quantized_sequence'), (CL, 'ChordProgression.from_quantized_sequence'), (DL, 'DrumTrack.from_quantized_sequence')]
 
-EXPLANATION += (' Location-independent additions: ROLL/gap-index-in-range (a store into row O-1 needs 0 < O; found F26), ROLL/pitch-range-inclusive (boundary scenarios pitch == min/max +-1), CHORD/previous-step (a carried step is never a clamped constant), MEL/gap-bar-length, DRUM/gap normal form.')
+EXPLANATION += (' Shared with C06 / C09 for the performance renderers: GRID, ORIGIN/start-step-once, RENDER/note-off-ends-one, VEL/bin-size.' + ' Location-independent additions: ROLL/gap-index-in-range (a store into row O-1 needs 0 < O; found F26), ROLL/pitch-range-inclusive (boundary scenarios pitch == min/max +-1), CHORD/previous-step (a carried step is never a clamped constant), MEL/gap-bar-length, DRUM/gap normal form.')
